@@ -38,17 +38,21 @@ pub struct EObs {
 }
 
 fn obs_file(f: &mut zip::read::ZipFile<'_>, bufs: &[usize]) -> Result<EObs, String> {
-    obs_file_x(f, bufs, false)
+    obs_file_x(f, bufs, false, 0)
 }
 
 /// `persist`: a caller that does not give up at the first read error but calls read() a few more times on
 /// the same entry (a retrying copy loop); what those calls return is not judged, they must not panic
-fn obs_file_x(f: &mut zip::read::ZipFile<'_>, bufs: &[usize], persist: bool) -> Result<EObs, String> {
+fn obs_file_x(f: &mut zip::read::ZipFile<'_>, bufs: &[usize], persist: bool, api: u8) -> Result<EObs, String> {
     let lm = f.last_modified();
     let mut o = EObs { name: f.name().to_string(), size: f.size(), csize: f.compressed_size(), crc: f.crc32(), method: super::common::method_id(f.compression()), dos: (lm.datepart(), lm.timepart()), mode: f.unix_mode(), content: Err(()), comment: f.comment().to_string(), extra: f.extra_data().to_vec() };
-    match read_with_bufs(f, bufs, 1 << 26) {
+    let hint = f.size();
+    match if api == 0 { read_with_bufs(f, bufs, 1 << 26) } else { super::common::read_with_api(f, bufs, 1 << 26, api % 7, hint) } {
         Ok(c) => o.content = Ok(c),
         Err(e) if e.starts_with("read error") => {
+            if std::env::var_os("ZV_DEBUG").is_some() {
+                eprintln!("[debug] entry {:?}: {e}", o.name);
+            }
             o.content = Err(());
             if persist {
                 let mut scratch = [0u8; 64];
@@ -68,6 +72,12 @@ pub fn observe_seekable<R: Read + Seek>(r: R, passwords: &[Option<Vec<u8>>], buf
 }
 
 pub fn observe_seekable_x<R: Read + Seek>(r: R, passwords: &[Option<Vec<u8>>], bufs: &[usize], persist: bool) -> Result<Result<Vec<EObs>, ()>, String> {
+    observe_seekable_api(r, passwords, bufs, persist, 0)
+}
+
+/// `api` > 0: the caller finishes each entry through another `Read` entry point (common::READ_APIS) and
+/// retries `Interrupted`
+pub fn observe_seekable_api<R: Read + Seek>(r: R, passwords: &[Option<Vec<u8>>], bufs: &[usize], persist: bool, api: u8) -> Result<Result<Vec<EObs>, ()>, String> {
     let mut za = match zip::ZipArchive::new(r) {
         Ok(z) => z,
         Err(_) => return Ok(Err(())),
@@ -84,7 +94,7 @@ pub fn observe_seekable_x<R: Read + Seek>(r: R, passwords: &[Option<Vec<u8>>], b
             None => za.by_index(i).map_err(|_| ()),
         };
         match f {
-            Ok(mut f) => v.push(obs_file_x(&mut f, bufs, persist)?),
+            Ok(mut f) => v.push(obs_file_x(&mut f, bufs, persist, api)?),
             Err(()) => v.push(EObs { name: format!("<open failed {i}>"), size: 0, csize: 0, crc: 0, method: 0, dos: (0, 0), mode: None, content: Err(()), comment: String::new(), extra: Vec::new() }),
         }
     }
@@ -98,20 +108,25 @@ pub fn observe_stream<R: Read>(r: R, bufs: &[usize]) -> Result<(Vec<EObs>, bool)
 }
 
 /// `consume[i % len]`: 0 = read the entry to the end, 1 = read nothing, 2 = read half of it
-pub fn observe_stream_partial<R: Read>(mut r: R, bufs: &[usize], consume: &[u8]) -> Result<(Vec<EObs>, bool), String> {
+pub fn observe_stream_partial<R: Read>(r: R, bufs: &[usize], consume: &[u8]) -> Result<(Vec<EObs>, bool), String> {
+    observe_stream_api(r, bufs, consume, 0)
+}
+
+pub fn observe_stream_api<R: Read>(mut r: R, bufs: &[usize], consume: &[u8], api: u8) -> Result<(Vec<EObs>, bool), String> {
     let mut v = Vec::new();
     loop {
         match zip::read::read_zipfile_from_stream(&mut r) {
             Ok(Some(mut f)) => {
                 let mode = consume[v.len() % consume.len()];
                 if mode == 0 {
-                    v.push(obs_file(&mut f, bufs)?)
+                    v.push(obs_file_x(&mut f, bufs, false, api)?)
                 } else {
                     let want = if mode == 1 { 0 } else { (f.size() / 2) as usize };
                     let mut got = vec![0u8; want];
                     let mut n = 0;
                     while n < want {
                         match f.read(&mut got[n..]) {
+                            Err(e) if e.kind() == std::io::ErrorKind::Interrupted => continue,
                             Ok(0) | Err(_) => break,
                             Ok(k) => n += k,
                         }
@@ -140,46 +155,81 @@ pub struct Sched {
     /// 0 = ChunkReader directly, n>0 = BufReader with capacity n on top
     bufreader: usize,
     caller: Vec<usize>,
+    /// which `Read` entry point the caller finishes each entry with (index into common::READ_APIS)
+    #[serde(default)]
+    api: u8,
+    /// n > 0: every n-th read call of the underlying reader first reports `Interrupted`
+    #[serde(default)]
+    intr: usize,
+}
+
+/// read_to_string only completes on valid UTF-8 (and the caller's earlier plain reads may have split a
+/// multi-byte character): entries whose (reference) content is not pure ASCII are compared on metadata only
+/// when the caller used it
+fn norm_api(v: Result<Vec<EObs>, ()>, reference: &Result<Vec<EObs>, ()>, api: u8) -> Result<Vec<EObs>, ()> {
+    if api as usize % super::common::READ_APIS.len() != 6 {
+        return v;
+    }
+    let Ok(r) = reference else { return v };
+    v.map(|v| {
+        v.into_iter()
+            .enumerate()
+            .map(|(i, mut e)| {
+                if let Some(Ok(c)) = r.get(i).map(|x| &x.content) {
+                    if !c.is_ascii() {
+                        e.content = Err(());
+                    }
+                }
+                e
+            })
+            .collect()
+    })
 }
 
 fn check_reader(seed: &Seed, s: &Sched, info: &mut Info) -> Result<(), String> {
     let bufs: &[usize] = if s.caller.is_empty() { &[4096] } else { &s.caller };
+    // 7 = the plain read() loop of READ_APIS[0], but one that retries `Interrupted` (api 0 = the legacy loop, used by C11)
+    let api = 7 + s.api % 7;
     // reference: plain Cursor, read_to_end-style
     let ref_seek = observe_seekable(Cursor::new(&seed.bytes[..]), &seed.passwords, &[65536])?;
     let start = seed.built.as_ref().map(|b| b.prefix_len as usize).unwrap_or(0);
     let ref_stream = observe_stream(Cursor::new(&seed.bytes[start..]), &[65536])?;
     // chunked
-    let cr = ChunkReader::new(Cursor::new(&seed.bytes[..]), s.schedule.clone(), s.cuts.clone());
+    let cr = ChunkReader::new(Cursor::new(&seed.bytes[..]), s.schedule.clone(), s.cuts.clone()).with_interrupts(s.intr);
     let shorts = cr.short_reads.clone();
-    let got = if s.bufreader > 0 { observe_seekable(BufReader::with_capacity(s.bufreader, cr), &seed.passwords, bufs)? } else { observe_seekable(cr, &seed.passwords, bufs)? };
-    if got != ref_seek {
+    let intrs = cr.interrupts.clone();
+    let got = if s.bufreader > 0 { observe_seekable_api(BufReader::with_capacity(s.bufreader, cr), &seed.passwords, bufs, false, api)? } else { observe_seekable_api(cr, &seed.passwords, bufs, false, api)? };
+    if norm_api(got.clone(), &ref_seek, s.api) != norm_api(ref_seek.clone(), &ref_seek, s.api) {
         return Err(describe_diff("seekable reader", &ref_seek, &got, s));
     }
     let cuts2: Vec<u64> = s.cuts.iter().filter(|c| **c >= start as u64).map(|c| c - start as u64).collect();
-    let cr = ChunkReader::new(Cursor::new(&seed.bytes[start..]), s.schedule.clone(), cuts2);
+    let cr = ChunkReader::new(Cursor::new(&seed.bytes[start..]), s.schedule.clone(), cuts2).with_interrupts(s.intr);
     let shorts2 = cr.short_reads.clone();
-    let got_s = if s.bufreader > 0 { observe_stream(NoSeek(BufReader::with_capacity(s.bufreader, cr)), bufs)? } else { observe_stream(NoSeek(cr), bufs)? };
+    let got_s = if s.bufreader > 0 { observe_stream_api(NoSeek(BufReader::with_capacity(s.bufreader, cr)), bufs, &[0], api)? } else { observe_stream_api(NoSeek(cr), bufs, &[0], api)? };
+    let sn = |x: (Vec<EObs>, bool), r: &(Vec<EObs>, bool)| (norm_api(Ok(x.0), &Ok(r.0.clone()), s.api).unwrap(), x.1);
     // partial consumption: whatever the consumer leaves unread must be skipped correctly however
     // the underlying reader chunks its reads
     for pat in [&[1u8, 0][..], &[2, 1, 0][..]] {
         let rp = observe_stream_partial(Cursor::new(&seed.bytes[start..]), &[65536], pat)?;
         let cuts3: Vec<u64> = s.cuts.iter().filter(|c| **c >= start as u64).map(|c| c - start as u64).collect();
+        // no `Interrupted` here: what a partially read entry leaves behind is skipped inside Drop, whose
+        // documented reaction to ANY error of the underlying reader is a panic (not a Result-returning call)
         let cr = ChunkReader::new(Cursor::new(&seed.bytes[start..]), s.schedule.clone(), cuts3);
-        let gp = observe_stream_partial(NoSeek(cr), bufs, pat)?;
-        if gp != rp {
+        let gp = observe_stream_api(NoSeek(cr), bufs, pat, api)?;
+        if sn(gp.clone(), &rp) != sn(rp.clone(), &rp) {
             return Err(format!("streaming reader with partial consumption {pat:?}: schedule {:?} cuts {:?} yields {} entries (complete={}) / different data; unchunked reference {} entries (complete={})", s.schedule, s.cuts, gp.0.len(), gp.1, rp.0.len(), rp.1));
         }
     }
-    if got_s != ref_stream {
-        return Err(format!("streaming reader: with schedule {:?} cuts {:?} bufreader {} caller buffers {:?} the stream yields {} entries (complete={}) / different data; reference {} entries (complete={})", s.schedule, s.cuts, s.bufreader, bufs, got_s.0.len(), got_s.1, ref_stream.0.len(), ref_stream.1));
+    if sn(got_s.clone(), &ref_stream) != sn(ref_stream.clone(), &ref_stream) {
+        return Err(format!("streaming reader: with schedule {:?} cuts {:?} bufreader {} caller buffers {:?} (caller API {}, Interrupted every {}) the stream yields {} entries (complete={}) / different data; reference {} entries (complete={})", s.schedule, s.cuts, s.bufreader, bufs, super::common::READ_APIS[s.api as usize % 7], s.intr, got_s.0.len(), got_s.1, ref_stream.0.len(), ref_stream.1));
     }
-    let n = shorts.load(std::sync::atomic::Ordering::Relaxed) + shorts2.load(std::sync::atomic::Ordering::Relaxed);
-    info.nontrivial = n > 0 || bufs.iter().any(|b| *b < 64);
+    let n = shorts.load(std::sync::atomic::Ordering::Relaxed) + shorts2.load(std::sync::atomic::Ordering::Relaxed) + intrs.load(std::sync::atomic::Ordering::Relaxed);
+    info.nontrivial = n > 0 || bufs.iter().any(|b| *b < 64) || s.api % 7 != 0;
     Ok(())
 }
 
 fn describe_diff(what: &str, a: &Result<Vec<EObs>, ()>, b: &Result<Vec<EObs>, ()>, s: &Sched) -> String {
-    let ctx = format!("schedule {:?} cuts {:?} bufreader {} caller buffers {:?}", s.schedule, s.cuts, s.bufreader, s.caller);
+    let ctx = format!("schedule {:?} cuts {:?} bufreader {} caller buffers {:?}, caller API {}, Interrupted every {}", s.schedule, s.cuts, s.bufreader, s.caller, super::common::READ_APIS[s.api as usize % 7], s.intr);
     match (a, b) {
         (Ok(x), Ok(y)) => {
             for (i, (p, q)) in x.iter().zip(y.iter()).enumerate() {
@@ -346,10 +396,33 @@ pub fn run(ctx: &mut Ctx) {
             let c = (k / seeds.len()) % 64;
             let chunk = if c < 56 { 1 + c } else { [100usize, 127, 128, 129, 200, 255, 1000, 4095][c - 56] };
             let br = brs[(k / (seeds.len() * 64)) % brs.len()];
-            Sched { seed, schedule: vec![chunk], cuts: vec![], bufreader: br, caller: callers[(k / 3) % callers.len()].to_vec() }
+            Sched { seed, schedule: vec![chunk], cuts: vec![], bufreader: br, caller: callers[(k / 3) % callers.len()].to_vec(), api: 0, intr: 0 }
         },
         &|s: &Sched, info: &mut Info| {
             info.label(if s.bufreader > 0 { "bufreader" } else { "direct" });
+            Verdict::from_result(catch(|| check_reader(&seeds[s.seed], s, info)).unwrap_or_else(|p| Err(format!("PANIC: {p}"))))
+        },
+    );
+    // caller-side Read APIs x Interrupted schedules x chunkings, every seed archive
+    let a_scheds: [&[usize]; 6] = [&[], &[1], &[7], &[13, 1], &[128, 3], &[4095]];
+    let a_intr = [0usize, 1, 2, 3, 7];
+    let a_callers: [&[usize]; 6] = [&[1], &[5], &[0, 3], &[16, 1], &[200], &[7, 4096]];
+    let a_total = (seeds.len() * 7 * a_scheds.len() * a_intr.len()) as u64;
+    ctx.enumerate::<Sched>(
+        "apis",
+        a_total,
+        &|k| {
+            let k = k as usize;
+            let seed = k % seeds.len();
+            let k2 = k / seeds.len();
+            let api = (k2 % 7) as u8;
+            let sc = a_scheds[(k2 / 7) % a_scheds.len()].to_vec();
+            let intr = a_intr[(k2 / (7 * a_scheds.len())) % a_intr.len()];
+            Sched { seed, schedule: sc, cuts: vec![], bufreader: if k % 5 == 4 { 7 } else { 0 }, caller: a_callers[(k / 2) % a_callers.len()].to_vec(), api, intr }
+        },
+        &|s: &Sched, info: &mut Info| {
+            info.label(super::common::READ_APIS[s.api as usize % 7]);
+            info.label_if(s.intr > 0, "interrupted-reads");
             Verdict::from_result(catch(|| check_reader(&seeds[s.seed], s, info)).unwrap_or_else(|p| Err(format!("PANIC: {p}"))))
         },
     );
@@ -364,7 +437,7 @@ pub fn run(ctx: &mut Ctx) {
         cidx.len() as u64,
         &|k| {
             let (seed, p) = cidx[k as usize];
-            Sched { seed, schedule: vec![], cuts: vec![p], bufreader: 0, caller: callers[(k as usize) % callers.len()].to_vec() }
+            Sched { seed, schedule: vec![], cuts: vec![p], bufreader: 0, caller: callers[(k as usize) % callers.len()].to_vec(), api: 0, intr: 0 }
         },
         &|s: &Sched, info: &mut Info| Verdict::from_result(catch(|| check_reader(&seeds[s.seed], s, info)).unwrap_or_else(|p| Err(format!("PANIC: {p}")))),
     );
@@ -382,8 +455,10 @@ pub fn run(ctx: &mut Ctx) {
                 proptest::collection::vec(any::<u16>(), 0..4),
                 prop_oneof![Just(0usize), Just(1), Just(7), Just(64), 1usize..300],
                 prop_oneof![Just(vec![4096usize]), proptest::collection::vec(prop_oneof![Just(0usize), Just(1), Just(2), Just(3), Just(7), 1usize..200, Just(4096)], 1..5).prop_filter("not all zero", |v| v.iter().any(|x| *x > 0))],
+                prop_oneof![3 => Just(0u8), 2 => 1u8..7],
+                prop_oneof![3 => Just(0usize), 1 => 1usize..6],
             )
-                .prop_map(|(p, seed, schedule, cuts, bufreader, caller)| (p, Sched { seed: seed as usize, schedule, cuts: cuts.into_iter().map(|c| c as u64).collect(), bufreader, caller }))
+                .prop_map(|(p, seed, schedule, cuts, bufreader, caller, api, intr)| (p, Sched { seed: seed as usize, schedule, cuts: cuts.into_iter().map(|c| c as u64).collect(), bufreader, caller, api, intr }))
                 .boxed()
         },
         &|(p, s): &(Program, Sched), info: &mut Info| {
